@@ -5,6 +5,14 @@ import json
 ALL = [f"C{i:02d}" for i in range(1, 20)]
 
 CHECKS = {
+    "C01": dict(
+        category="exploration", engine="E1", design_ref="DESIGN.md 2.1, 2.5, 3/C01",
+        technique="bounded-exhaustive enumeration of generated binding models x instances x serializer configs x backends, round-trip oracle",
+        text=("Every binding model the G-model grammar yields within the deviation bound (quick: <=2 fields, <=3 non-default grammar answers, 6.7k models; "
+              "thorough: <=3 fields, <=4 answers, 170k models) is materialised as real dataclasses; for each, the full product of the per-field value alphabets under the "
+              "default configuration and every <=2-deviation combination of values and serializer configuration is rendered by both writers and parsed by both handlers; "
+              "the result must equal the original structurally with exact leaf types. No reference model: blind to symmetric mistakes (C03 covers those)."),
+        note="domain exclusions are listed in evidence.assumptions and DESIGN.md; six analysed defects are listed as open known findings, each as a predicate over case and outcome"),
     "C05": dict(
         category="exploration", engine="E1", design_ref="DESIGN.md 2.1, 2.6, 3/C05",
         technique="bounded-exhaustive enumeration of value alphabets, lexical grammars and candidate-type lists against an independent XSD datatype reference",
